@@ -227,6 +227,8 @@ def plan(prop, tier):
                   invs=["T1_RoundTrip"]),
                 G("dial", Leaves="<-LvDial", Quants="<-QSmall", MaxSize=3 if q else 4, MaxLen=3, FlagSets="<-FlagsS",
                   Alpha="{97, 10}", Variants='{"base", "xsd"}', invs=THEOREMS + ["T13_Dialect"]),
+                G("xsdcaps", Leaves="<-LvAB", Quants="<-QBasic", MaxSize=4, MaxGroups=2, MaxLen=3, Repl2="<-ReplGroups",
+                  Variants='{"base", "xsd"}', invs=["T1_RoundTrip", "T13_Dialect"]),      # groups and their captures under both dialects
                 T("rand", "dialect", 2000, 40000)]
     if prop == "C18":
         return [{"type": "apimc", "tag": "mc", "consts": {"Depth": 6 if q else 8, "RegIds": "{1, 2}", "ItIds": "{1, 2}",
